@@ -35,6 +35,8 @@ def check_file(chk, p, r, pn):
                     sig = "graph:duplicate-output:outfile-collision"
                 elif a["inputs"] == b["inputs"] and len(a["inputs"]) == 1 and a["rule"] != b["rule"] and not re.search(r"\d{10,}", o):
                     sig = "graph:duplicate-output:nonshareable-same-source"
+                elif a["rule"].startswith("BUILD_") and b["rule"].startswith("BUILD_"):
+                    sig = "graph:duplicate-output:custom-out-collision"
                 elif o.startswith("build/dl/") and {a["rule"].split("_")[0], b["rule"].split("_")[0]} <= {"phony", "GIT"}:
                     sig = "graph:duplicate-output:download-dir-clash"
                 else:
@@ -84,7 +86,10 @@ def run(chk):
                 "custom builds, downloads, build deps, some without a per-build bindir) through the real CLI; whole ninja file compared with the "
                 "model's; oracle: strict parser for the ninja subset laze emits, then duplicate outputs, duplicate/late/undefined rules, missing "
                 "targets, laze-chosen paths outside the build dir; non-trivial = >=2 configured builds in one file; distinct by project hash")
-    projcheck.campaign(chk, PROF, n, OBS, oracle, nontrivial)
+    from . import grafts
+    k = 12 if chk.tier == "quick" else 300
+    extra = [g(projgen.gen_project(chk.seed + 660, i, PROF), i) for i in range(k) for g in (grafts.marker_build_dep, grafts.per_builder_generated)]
+    projcheck.campaign(chk, PROF, n, OBS, oracle, nontrivial, extra_projects=extra)
     chk.assumptions = ["no ninja binary on this image: 'loadable by ninja' is decided by a strict parser for the subset of ninja syntax laze emits",
                        "paths without spaces, ':' or '$' (the generator's path alphabet)"]
     return chk.finish()
